@@ -4,7 +4,7 @@ CONSTANTS
   Abis = {"C", "system"}
   BAttrs = {"none", "a", "b"}
   FKinds = {"FFn", "FStatic"}
-  FAttrs = {"none", "a", "b"}
+  FAttrs = {"none", "b"}
   MaxForeign = 1
   MaxLen = 3
   MaxInner = 2
